@@ -26,7 +26,7 @@ def selftest_corrupt(module, trace_path, corrupt, expect_tag="MISMATCH", boundar
     with open(trace_path) as f:
         lines = [l for l in f if l.strip()]
     rnd = random.Random(SEED)
-    for _ in range(50):
+    for _ in range(5000):
         i = rnd.randrange(len(lines))
         rec = json.loads(lines[i])
         new = corrupt(rec)
@@ -48,14 +48,23 @@ def selftest_corrupt(module, trace_path, corrupt, expect_tag="MISMATCH", boundar
 
 # ------------------------------------------------------------------ C01-C05 (shared harness subcommand)
 SEM_RULE = ("records = ADFs as presented to the library (all 4 one-statement and all 256 two-statement ADFs in rotating "
-            "syntactic forms, seeded three-statement truth tables, seeded structured/random ADFs with 3-6 statements); "
+            "syntactic forms, seeded three-statement truth tables, seeded structured/random ADFs with 3-6 statements, and composed "
+            "frameworks of 9-16 statements (C02: 8-11) - independent blocks of 1-5 statements interleaved in the variable order plus observer "
+            "statements - whose answers TLC derives block-wise with the composition theorem of AdfCompose after verifying the decomposition on the ASTs); "
             "every semantics variant of the property is called on a fresh object; distinct = distinct input text; "
             "non-trivial = TLC reports a grounded interpretation that is neither all-undecided nor two-valued, or at "
             "least one two-valued model")
 
 
+def _compose_mc(tier, res, quick=("b", "e")):
+    # the composition theorem behind the judgement of the large (composed) frameworks, against the direct definitions
+    for shape in (list(quick) if tier != "thorough" else ["a", "b", "e", "c", "d"]):
+        res.add_mc(require_mc(tlc_mc("MC_Compose", "MC_Compose_%s.cfg" % shape, workers=8 if tier != "thorough" else 14, timeout=3000)))
+
+
 def _sem_mc(prop, tier, res):
     res.add_mc(require_mc(tlc_mc("MC_Sem", "MC_Sem_n2.cfg", workers=8, timeout=600)))
+    _compose_mc(tier, res)
     if tier == "thorough":
         res.add_mc(require_mc(tlc_mc("MC_Sem", "MC_Sem_n3s.cfg", workers=12, timeout=1800)))
         if prop == "C01":
@@ -83,8 +92,18 @@ def check_sem(prop, tier, replay, selftest, mc=_sem_mc):
                     return rec
             return None
         ok = selftest_corrupt("Trace_Sem", out, corrupt)
-        print("SELFTEST %s: %s" % (prop, "binding demonstrated" if ok else "FAILED"))
-        return 0 if ok else 2
+        def corrupt_big(rec):
+            # a composed framework: an answer that lost one model (or, for one-vector answers, with one value flipped)
+            if rec.get("kind") != "adfbig":
+                return None
+            for c in rec.get("calls", []):
+                if c["st"] == "ok" and len(c["r"]) >= 2:
+                    c["r"] = c["r"][:-1]
+                    return rec
+            return corrupt(rec)
+        ok2 = selftest_corrupt("Trace_Sem", out, corrupt_big)
+        print("SELFTEST %s: %s (small records), %s (composed records)" % (prop, "binding demonstrated" if ok else "FAILED", "binding demonstrated" if ok2 else "FAILED"))
+        return 0 if ok and ok2 else 2
     tr = tlc_trace("Trace_Sem", out)
     res.add_trace(tr)
     recs = {}
@@ -95,7 +114,9 @@ def check_sem(prop, tier, replay, selftest, mc=_sem_mc):
             continue
         if gl not in recs:
             recs[gl] = json.loads(tr["lines"][gl - 1])
-        if recs[gl].get("kind") != "adf":
+        if t[0] == "BADRECORD":
+            raise ToolError("harness claimed a decomposition that TLC refutes: %s" % (t,))
+        if recs[gl].get("kind") not in ("adf", "adfbig"):
             continue
         rec = recs[gl]
         if t[0] == "INFO":
@@ -119,6 +140,9 @@ def check_sem(prop, tier, replay, selftest, mc=_sem_mc):
                                                    "note": "agreement is not evidence and is not counted as validated; the filter only widens the search for inputs worth recording"}
     res.exhaustive = False
     res.extra["exhaustive_subspace"] = "all ADFs with 1 and 2 statements (260) are enumerated completely on both sides"
+    big = [r for r in recs.values() if r.get("kind") == "adfbig"]
+    res.extra["composed_frameworks"] = {"records": len(big), "statements": sorted(set(r["n"] for r in big)),
+                                        "judged_by": "AdfCompose (block-wise definitions + composition theorem, model-checked by MC_Compose)"}
     res.samples = [_trim(json.loads(l)) for l in tr["lines"][300:303] if '"kind":"adf"' in l] or [_trim(json.loads(tr["lines"][0]))]
     res.assumptions = ["TLC evaluates AdfSem correctly", "the harness logs the answers the library returned (binding self-test: --selftest)",
                        "a hang is detected by a 20 s wall-clock budget per call (heuristic-call budget 4*3^n for custom heuristics)"]
@@ -127,6 +151,7 @@ def check_sem(prop, tier, replay, selftest, mc=_sem_mc):
 
 def _c04_mc(prop, tier, res):
     res.add_mc(require_mc(tlc_mc("CountSearch", "CountSearch_n2_TRUE.cfg", workers=8, timeout=600)))
+    _compose_mc(tier, res, quick=("e",))
     if tier == "thorough":
         res.add_mc(require_mc(tlc_mc("CountSearch", "CountSearch_n3s_TRUE.cfg", workers=12, timeout=1800)))
 
@@ -171,6 +196,7 @@ def _c05_mc(prop, tier, res):
     res.add_mc(require_mc(tlc_mc("NgSearch", "NgSearch_n2.cfg", workers=8, timeout=600)))
     res.add_mc(require_mc(tlc_mc("NgSearch", "NgSearch_n2_tv.cfg", workers=8, timeout=600)))
     res.add_mc(require_mc(tlc_mc("NgSearch", "NgSearch_n2_live.cfg", workers=8, timeout=600)))
+    _compose_mc(tier, res, quick=("e",))
     if tier == "thorough":
         res.add_mc(require_mc(tlc_mc("NgSearch", "NgSearch_n3s.cfg", workers=12, timeout=3600)))
 
